@@ -69,17 +69,17 @@ claim("C23", "rank-taint (F-UNIFORM) over reaching definitions, guard extraction
 claim("C32", "data-dependence shape check (F-SHAPE) of leapfrog_step via reaching definitions",
       "Decides the integrator clause: leapfrog_step is a palindromic kick-drift-kick composition of shears with equal half steps "
       "(each kick reads only the then-current position, the drift only the half-step momentum), hence time-reversible and "
-      "volume-preserving for every potential, step size and mass matrix. Further rules decide mass-matrix consistency between momentum draw, kinetic energy and stepper (exact polynomial normal form), the candidate-selection probabilities of the NUTS tree merge (expit / min(1, exp) of the weight difference in the right slot), single consumption of every PRNG key binding, and the HMC accept/reject rule incl. NaN -> reject. Invariance of the target under the full transition is statistical and not decided.", TRUST, "DESIGN.md section 4, C32")
+      "volume-preserving for every potential, step size and mass matrix. Further rules decide mass-matrix consistency between momentum draw, kinetic energy and stepper (exact polynomial normal form), the candidate-selection probabilities of the NUTS tree merge (expit / min(1, exp) of the weight difference in the right slot), single consumption of every PRNG key binding (also inside tuples and when returned), log-weights never exponentiated individually, and the HMC accept/reject rule incl. NaN -> reject (where/nan_to_num). Invariance of the target under the full transition is statistical and not decided.", TRUST, "DESIGN.md section 4, C32")
 
 claim("C33", "table check of Vector's dunder bindings and of the operand order of the binary-op factories",
       "Decides that every arithmetic/comparison/unary dunder of the pytree vector is bound to its own operator with forward "
-      "variants applying op(lhs, rhs) and reflected variants op(rhs, lhs); that size/dot/vdot/norm reductions map the jnp namesake over the leaves in operand order and add up, and that the sequential maps move mapped axes to/from axis 0 in moveaxis order. Numerical agreement of smap/lmap with vmap is not decided.", TRUST, "DESIGN.md section 4, C33")
+      "variants applying op(lhs, rhs) and reflected variants op(rhs, lhs); that size/dot/vdot/norm reductions map the jnp namesake over the leaves in operand order on ravelled leaves and add up, that the sequential maps move mapped axes to/from axis 0 in moveaxis order and allocate output buffers with the mapped output's dtype, and that stack/unstack act on one and the same axis. Numerical agreement of smap/lmap with vmap is not decided.", TRUST, "DESIGN.md section 4, C33")
 
 claim("C08", "who-may-call scan of the domain constructors; dominance/reaching-definition check of the cache protocol in make(); F-INIT for the hash key attributes",
       "Decides the identity clause: DomainTuple/MultiDomain objects can only come out of make(), which looks up and stores under "
       "the same canonical key, constructs only after a failed lookup and returns what it stored; pickling re-creates through the "
       "factory; every attribute of a domain's hash key is assigned on all constructor paths, never re-assigned and bound to a "
-      "hashable canonical value; constructor branches compute hash-key attributes with the same arithmetic; PowerSpace counts all len(bounds)+1 bins and raises on an empty one before caching. Volumes and k-length tables are numerical and not decided.", TRUST, "DESIGN.md section 4, C08")
+      "hashable canonical value; constructor branches compute hash-key attributes with the same arithmetic; PowerSpace counts all len(bounds)+1 bins and raises on an empty one before caching; volumes/weights of a sub-selection are built from the selected sub-domains only, class-level caches of derived quantities are keyed by every input of the cached value, and LMSpace's unique k-lengths share the bound of the table's m=0 block. The numerical values of volumes and k-length tables are not decided.", TRUST, "DESIGN.md section 4, C08")
 
 claim("C12", "typed freeze table for LikelihoodPartial; structural recognition (after let-inlining) of the jvp/vjp sandwich in LikelihoodWithModel; sibling comparison of LikelihoodSum methods; method-set exhaustiveness",
       "Decides that amending a forward model, adding likelihoods and freezing point estimates preserve the factorisation "
@@ -104,7 +104,7 @@ claim("C15", "sibling comparison after normalisation: guarded-assignment extract
 
 claim("C16", "dominance check of the acceptance guard and status discipline in DescentMinimizer.__call__ (and non-delegating overrides)",
       "Decides that the line-search result becomes the iterate only on the false edge of new.value > old.value, whose true edge returns "
-      "ERROR with the old energy, that every return carries a controller verdict, ERROR or a guarded CONVERGED, that every successful return of the line search is dominated by the sufficient-decrease and the strong curvature test evaluated at the returned step, and that the VL-BFGS Gram matrices are written with indices typed by the vector list they belong to. Equality of the two L-BFGS directions is numerical and not decided.", TRUST, "DESIGN.md section 4, C16")
+      "ERROR with the old energy, that every return carries a controller verdict, ERROR or a guarded CONVERGED, that every successful return of the line search is dominated by the sufficient-decrease and the strong curvature test evaluated at the returned step, and that the VL-BFGS Gram matrices are written with indices typed by the vector list they belong to, and that L_BFGS is the two-loop recursion with the initial scaling taken from the newest pair (reaching definitions). Equality of the two L-BFGS directions is numerical and not decided.", TRUST, "DESIGN.md section 4, C16")
 
 claim("C17", "dominance check of the no-uphill acceptance in both Newton-CG variants; sibling comparison eager vs compiled (+ line search); sign check of trial point and CG fallback",
       "Decides for the two Newton-CG minimisers that a new point is accepted only after new_energy <= current energy (eager: guard "
@@ -124,13 +124,13 @@ claim("C26", "writer template vs reader regular expression (regex AST inclusion)
       "Decides the naming and truncation protocol of persisted sample lists: every name the writer can produce is accepted by the "
       "reader's pattern and yields the writer's index, the mean file and leftover temporary files are rejected, the file of index "
       "n_samples is removed/refused before the first write and the reader takes the longest run from 0, files are named by the global "
-      "and filled by the local index. Mean/variance arithmetic and HDF5 contents are not decided.", TRUST, "DESIGN.md section 4, C26")
+      "and filled by the local index; a task's first global index is the sum of the lower ranks' actual counts, nothing on the load path is memoised, and `op` is applied to single samples only (never to an average). StatCalculator's arithmetic and HDF5 layout are not decided.", TRUST, "DESIGN.md section 4, C26")
 
 claim("C09", "table check: values the configuration writer can store vs literals and polarity each Hartley back end reads; mode-specialised interpretation of the FFT/Hartley apply methods",
       "Decides that the three Hartley implementations (ducc, SciPy, JAX) read the same configuration key with literals the writer "
       "can actually produce and with the same polarity, and that FFT/Hartley operators take the volume factor from the domain for "
       "TIMES/ADJOINT and from the target for the inverse modes, build the result on _tgt(mode) and pick the direction from the "
-      "input's harmonic flag; the configuration dict is shared by identity, every back end forwards its axes argument to each transform call, and the correlated-field maker transforms exactly the axes a sub-grid occupies. Numerical agreement of the transforms and SHT normalisation are not decided.", TRUST, "DESIGN.md section 4, C09")
+      "input's harmonic flag; the configuration dict is shared by identity, every back end forwards its axes argument to each transform call, and the correlated-field maker transforms exactly the axes a sub-grid occupies; the convention is read by the transforming function at call time (no override parameter, no copy on an operator), the zero-width shortcut of the smoothing operator is an exact test, and no back end normalises with the whole array's element count. Numerical agreement of the transforms and SHT normalisation are not decided.", TRUST, "DESIGN.md section 4, C09")
 
 claim("C10", "gather/scatter pairing check (same index attribute, same axis, accumulating scatter); def-use (alias-only) check of create_power_operator",
       "Decides that the distributor gathers and scatters through the same index on the same axis with an accumulating scatter (so "
@@ -147,14 +147,14 @@ claim("C13", "dominance of the refusal guards before every white-noise draw / sq
       "Decides that operators which cannot represent a covariance refuse to sample (missing dtype, non-positive factor/diagonal, "
       "inverse of a sum, sandwich without invertible bun) before anything is drawn, and that the inverse flag is threaded exactly: "
       "adapters flip it iff the inverse bit is set, the diagonal divides by sqrt(diag) iff from_inverse XOR (trafo>=2), sandwich "
-      "samples are bun^H(cheese sample) / bun^-1(cheese inverse sample); SumOperator.draw_sample combines the summands' samples with adding combinators only. The covariance of the samples is statistical and not decided.",
+      "samples are bun^H(cheese sample) / bun^-1(cheese inverse sample); SumOperator.draw_sample combines the summands' samples with adding combinators only; SamplingEnabler solves (L+P) x = P s + n with s from the inverse prior metric and n from the likelihood metric (exact linear normal form), and the sandwich shortcut scales by |f|^2. The covariance of the samples is statistical and not decided.",
       TRUST, "DESIGN.md section 4, C13")
 
 claim("C03", "sibling term comparison of the point-wise table (value column) and rule-based symbolic differentiation with sympy as term normaliser (derivative column); def-use check of the metric request through the combinators",
       "Decides that for every entry of the point-wise table the (value, derivative) helper returns the same value term as plain "
       "evaluation and - for all smooth entries and the smooth pieces of softplus/sinc - a derivative term equal to the symbolic "
       "derivative; and that want_metric is threaded through Linearization.new/trivial_jac/add_metric/make_var, products and sums. "
-      "The JAX wrappers' adjoint Jacobian is the conjugate transpose (conjugate in, conjugate out), and MultiLinearEinsum looks factors up with the same precedence in value and Jacobian. Decided on expression trees taken from the source; NIFTy is not executed. Jacobians of general compositions are not decided.",
+      "The JAX wrappers' adjoint Jacobian is the conjugate transpose (conjugate in, conjugate out), and MultiLinearEinsum looks factors up with the same precedence in value and Jacobian; scalar-affine arithmetic on a Linearization keeps the metric on every path reachable with a scalar operand, sum/integrate/vdot pair the value method with its operator form on the Jacobian, and MultiField's plain and (value, derivative) point-wise paths prepare extra arguments per entry. Decided on expression trees taken from the source; NIFTy is not executed. Jacobians of general compositions are not decided.",
       TRUST + " sympy 1.14 (from the offline wheelhouse) as algebraic normaliser for R03.2.", "DESIGN.md section 4, C03")
 
 claim("C18", "structural checks of the mirror / zero-residual clauses (same-index flag, same residual for both pair members, negation in the JAX samplers, zero insertion for point estimates); role-based assembly check of the linear-residual solve with an exact linear normal form over (L, P, draws)",
